@@ -24,7 +24,7 @@ macro_rules! c02_x_u {
             assert!(dval_u128(&v.dg()) as u32 == p & ((1u32 << W) - 1), "low half");
             assert!(f == (p >> W != 0), "flag exactly when the product does not fit");
             $crate::reach!(f && ($N == 1 || ad[$N - 1] == 0), "overflow with a zero top digit");
-            $crate::reach!(!f && p > 255, "fits");
+            $crate::reach!(!f && p > 15, "fits");
         });
     };
     ($name:ident, $unw:expr, $U:ty, $D:ty, $N:expr, wide) => {
